@@ -446,9 +446,19 @@ func hexListFlat(s string) string { // "a,b,c" hex list -> hex of the concatenat
 
 func runC15(c *ctx) {
 	res := c.res
-	res.Rule = "openings: generated token streams (negotiations 4 verbs x option codes, two-byte commands 241-249, escaped IAC, banner text runs) and IAC-rich byte soup (truncated sequences, SB/SE, IAC+arbitrary byte; outside the property, compared with the model only); every opening goes byte by byte through the real handleControlCharResponse (overlay export, recording net.Conn); a subset is sent by a loopback TCP server in a generated segmentation with pauses to the real telnet transport (NewTransport/Open/Read, socket timeouts 160-320 ms), observing the bytes the server receives and the results of the first Reads. non-trivial = opening with at least one IAC sequence; distinct by opening bytes + segmentation"
+	res.Rule = "openings: generated token streams (negotiations 4 verbs x option codes, two-byte commands 241-249, escaped IAC, banner text runs) and IAC-rich byte soup (truncated sequences, SB/SE, IAC+arbitrary byte; outside the property, compared with the model only); every opening goes byte by byte through the real handleControlCharResponse (overlay export, recording net.Conn); a subset is sent by a loopback TCP server in a generated segmentation with pauses to the real telnet transport (NewTransport/Open/Read, socket timeouts 160-320 ms), observing the bytes the server receives and the results of the first Reads; histories: one transport object opened 2-4 times in a row against the loopback server (previous opening complete, cut by a server hang-up or by the end of the negotiation phase at every offset of a sequence), each opening judged on its own against the fresh-object model. non-trivial = opening with at least one IAC sequence; distinct by opening bytes + segmentation"
 	r := c.rng
 	var cases []*c15case
+	var hists []*c15hist
+	if strings.HasPrefix(c.replay, "c15 hist ") {
+		h, err := c15parseHist(c.replay)
+		if err != nil {
+			res.Fail("machinery", c.replay, err.Error(), "bad-replay")
+			return
+		}
+		runC15History(c, []*c15hist{h})
+		return
+	}
 	if c.replay != "" {
 		cs, err := c15parse(c.replay)
 		if err != nil {
@@ -503,6 +513,10 @@ func runC15(c *ctx) {
 			c15genSeg(r, cs)
 			cases = append(cases, cs)
 		}
+	}
+
+	if c.replay == "" {
+		hists = c15genHistories(c, r.Fork())
 	}
 
 	// the model and the specification on every opening
@@ -734,6 +748,9 @@ func runC15(c *ctx) {
 			}
 		}
 	}
+	// (d) history: one transport object opened several times in a row (public level only)
+	runC15History(c, hists)
+
 	// (b) internal tie, streams: every generated opening through the real step function (after the
 	// public level, so that a failing input is reported with its public-level observation first)
 	if c15InternalAvailable {
